@@ -340,9 +340,7 @@ theorem omerc_false_origin (k : Omerc.Consts ℝ) (lon lat : ℝ) :
        (Omerc.fwdWith { k with FE := 0, FN := 0 } lon lat).2 + k.FN) := by
   unfold Omerc.fwdWith
   dsimp only
-  split
-  · simp
-  · split <;> simp
+  split <;> simp
 
 /-- the constants of omerc take the false origin straight from `x_0`, `y_0` -/
 theorem omerc_consts_origin (p : Parsed ℝ) : (Omerc.consts p).FE = Parsed.x p 0 ∧ (Omerc.consts p).FN = Parsed.y p 0 := by
